@@ -429,6 +429,54 @@ func runC11(c *Ctx) {
 						stale = append(stale, u)
 					}
 				}
+				// objects built over the passed connection before the upgrade (a Writer, a second Reader) hold the
+				// plaintext connection: they are dead after the upgrade as well
+				if core.IsNamed(a.Type(), "net", "Conn") {
+					derived := map[ssa.Value]bool{}
+					var grow func(v ssa.Value, depth int)
+					grow = func(v ssa.Value, depth int) {
+						if depth == 0 {
+							return
+						}
+						for _, r := range core.Referrers(v) {
+							switch x := r.(type) {
+							case *ssa.ChangeInterface:
+								grow(x, depth-1)
+							case *ssa.MakeInterface:
+								grow(x, depth-1)
+							case *ssa.Call:
+								if x == ci || derived[x] {
+									continue
+								}
+								if _, isPtr := x.Type().Underlying().(*types.Pointer); isPtr && core.InstrDominates(x, ci) {
+									derived[x] = true
+									grow(x, depth-1)
+								}
+							}
+						}
+					}
+					for _, src := range srcs {
+						grow(src, 4)
+					}
+					for d := range derived {
+						passed := false
+						for _, a2 := range ci.Common().Args {
+							if a2 == d {
+								passed = true // handed to the upgrade step itself: checked as an argument
+							}
+						}
+						if passed {
+							continue
+						}
+						for _, u := range staleUsesAfter(d, ci) {
+							if !seenUse[u] {
+								seenUse[u] = true
+								nStale++
+								R.Fail("C11.R2", fkey(up)+":pre-upgrade-object-used-after-upgrade:"+instrDescr(u), c.at(u), "after the upgrade step has run, nothing built over the connection handed to it is used any more", "an object built over the pre-upgrade connection ("+instrDescr(d.(ssa.Instruction))+") is still used after the upgrade step by "+instrDescr(u)+": after a TLS upgrade it reads or writes plaintext outside the TLS session")
+							}
+						}
+					}
+				}
 				for _, u := range stale {
 					nStale++
 					R.Fail("C11.R2", fkey(up)+":pre-upgrade-value-used-after-upgrade:"+instrDescr(u), c.at(u), "after the upgrade step has run, its caller uses only the connection and reader it returned", "the value handed to "+fkey(down)+" ("+a.Name()+") is still used afterwards by "+instrDescr(u)+": after a TLS upgrade this is the plaintext connection / the pre-upgrade reader")
